@@ -248,8 +248,55 @@ def find_data_view(eng, st, ref, label):
                            patterns=[e]),
                  z3.ForAll([j, k], z3.Implies(z3.And(0 <= j, j < k, k < n), z3.Select(arr, j) != z3.Select(arr, k)),
                            patterns=[z3.MultiPattern(z3.Select(arr, j), z3.Select(arr, k))])]
+        facts += structural_facts(eng, ref, label, n, arr)
         st.assume(*facts)
     return SeqView(n, arr, "obj:Tree")
+
+
+def structural_facts(eng, ref, label, n, arr):
+    """find_data on a decayline / decay node, spelled out through the node's own children.  Derived by
+    hand from X-TREE (order) + the schema (the label occurs only at the stated child positions); the
+    derivation is validated against lark's real Tree.find_data on trees enumerated from the schema by
+    checks/C01.py (monitor `fd_structure`), and is void (no facts) if the schema no longer has the
+    shapes  decayline : value particle* photos? model ,  decay : particle decayline* ,
+    model : MODEL_NAME model_options? | model_label."""
+    lab = smt.simp(label)
+    if not z3.is_string_value(lab):
+        return []
+    lab = lab.as_string()
+    sc = dec_schema()
+    shapes = {k: sorted(repr(x) for x in v) for k, v in sc.items()}
+    if shapes.get("decayline") != ["value particle* model", "value particle* photos model"] or \
+       shapes.get("decay") != ["particle decayline*"] or \
+       shapes.get("model") != ["MODEL_NAME", "MODEL_NAME model_options", "model_label"]:
+        return []
+    h0 = eng.entry_heap
+    c = get_ref(z3.Select(F_CHILDREN, ref))
+    m = h0.llen(c)
+    child = lambda j: h0.lget(c, j)
+    data = lambda v: z3.Select(F_DATA, get_ref(v))
+    wf = z3.Or(WFN(ref), WFR(ref))
+    is_line = z3.And(wf, z3.Select(F_DATA, ref) == strv("decayline"))
+    is_decay = z3.And(wf, z3.Select(F_DATA, ref) == strv("decay"))
+    photos = data(child(m - 2)) == strv("photos")
+    j = z3.Int("sf_j")
+    out = []
+    if lab == "particle":
+        k = z3.If(photos, m - 3, m - 2)
+        out.append(z3.Implies(is_line, z3.And(n == k, z3.ForAll([j], z3.Implies(z3.And(0 <= j, j < k), z3.Select(arr, j) == child(1 + j)),
+                                                                   patterns=[z3.Select(arr, j)]))))
+    elif lab == "model":
+        out.append(z3.Implies(is_line, z3.And(n == 1, z3.Select(arr, 0) == child(m - 1))))
+    elif lab == "photos":
+        out.append(z3.Implies(is_line, z3.And(n == z3.If(photos, 1, 0), z3.Implies(photos, z3.Select(arr, 0) == child(m - 2)))))
+    elif lab == "model_options":
+        mc = get_ref(z3.Select(F_CHILDREN, get_ref(child(m - 1))))
+        has = z3.And(h0.llen(mc) == 2)
+        out.append(z3.Implies(is_line, z3.And(n == z3.If(has, 1, 0), z3.Implies(has, z3.Select(arr, 0) == h0.lget(mc, 1)))))
+    elif lab == "decayline":
+        out.append(z3.Implies(is_decay, z3.And(n == m - 1, z3.ForAll([j], z3.Implies(z3.And(0 <= j, j < m - 1), z3.Select(arr, j) == child(1 + j)),
+                                                                     patterns=[z3.Select(arr, j)]))))
+    return out
 
 
 @external("lark.tree.Tree.find_data",
@@ -297,3 +344,64 @@ class TreeStruct:
 
 
 REG.tree_struct = TreeStruct()
+
+
+# ---- spec views of one decayline (written from the property: daughters in order, model, parameters) ----
+def _children(eng, st, node):
+    v = eng.as_val(st, node)
+    c = get_ref(st.heap.get_field(get_ref(v.t), "children"))
+    return c
+
+
+@spec_function()
+def daughters(eng, st, line):
+    """the particle children of a decayline: positions 1 .. (before photos? model), in order"""
+    h = st.heap
+    c = _children(eng, st, line)
+    m = h.llen(c)
+    photos = h.get_field(get_ref(h.lget(c, m - 2)), "data") == strv("photos")
+    k = z3.If(photos, m - 3, m - 2)
+    from pyvc.builtins_model import View
+    return View(k, lambda st2, j: SV(h.lget(c, 1 + j), "obj:Tree"))
+
+
+@spec_function()
+def has_photos(eng, st, line):
+    h = st.heap
+    c = _children(eng, st, line)
+    m = h.llen(c)
+    return sv_bool(h.get_field(get_ref(h.lget(c, m - 2)), "data") == strv("photos"))
+
+
+@spec_function()
+def model_node(eng, st, line):
+    h = st.heap
+    c = _children(eng, st, line)
+    return SV(h.lget(c, h.llen(c) - 1), "obj:Tree")
+
+
+@spec_function()
+def has_options(eng, st, line):
+    h = st.heap
+    mc = _children(eng, st, model_node(eng, st, line))
+    return sv_bool(h.llen(mc) == 2)
+
+
+@spec_function()
+def options(eng, st, line):
+    """children of the model_options node of the line's model"""
+    h = st.heap
+    mc = _children(eng, st, model_node(eng, st, line))
+    oc = get_ref(h.get_field(get_ref(h.lget(mc, 1)), "children"))
+    return SeqView(h.llen(oc), h.lelems(oc))
+
+
+@spec_function()
+def option_value(eng, st, node):
+    """a `value` sub-tree stands for its token's value, a LABEL token for its own"""
+    h = st.heap
+    v = eng.as_val(st, node)
+    r = get_ref(v.t)
+    is_tree = TYP(r) == class_id("Tree")
+    tok = get_ref(h.lget(get_ref(h.get_field(r, "children")), 0))
+    return SV(z3.If(is_tree, h.get_field(tok, "value"), h.get_field(r, "value")), None)
